@@ -19,6 +19,7 @@ fn main() {
 				"c06" => vh::c06_subs::replay(&cases, &mut out),
 				"c07" | "c08" => vh::c07_limits::replay(&cases, &mut out),
 				"c11" => vh::c11_guard::replay(&cases, &mut out),
+				"c12" => vh::c12_batch::replay(&cases, &mut out),
 				"c13" => vh::c13_registry::replay(&cases, &mut out),
 				"c14" => vh::c14_host_filter::replay(&cases, &mut out),
 				"c15" => vh::c15_wire_types::replay(&cases, &mut out),
